@@ -25,7 +25,7 @@ ASSUMPTIONS = [
     'configuration strings: a valid word with one or two characters replaced by symbolic lower-case letters; "accepted => it is one of the valid words"',
 ]
 ROUTES = ('ctor_config', 'ctor_like', 'ctor_like_val', 'template', 'deepcopy', 'like', 'fxp_like', 'from_fxp', 'resize_copy', 'add', 'mul_const', 'neg', 'lshift',
-          'rshift_keep', 'invert', 'and', 'xor', 'or', 'np_sum', 'np_cumsum', 'astype_roundtrip')
+          'rshift_keep', 'invert', 'and', 'xor', 'or', 'np_sum', 'np_cumsum', 'astype_roundtrip', 'equal', 'equal_wider', 'set_val_fxp', 'transpose', 'flatten', 'copy_method', 'T_prop')
 MUTATIONS = ('write', 'write_flags', 'setitem', 'config', 'reset', 'resize')
 FIELDS = {'overflow': ['saturate', 'wrap'], 'rounding': ['around', 'floor', 'ceil', 'fix', 'trunc'], 'shifting': ['expand', 'trunc', 'keep'],
           'op_sizing': ['optimal', 'same', 'fit', 'largest', 'smallest'], 'op_method': ['raw', 'repr'], 'op_input_size': ['same', 'best'],
@@ -164,6 +164,25 @@ def derive(F, route, A, other):
         return F.np.cumsum(A) if A.val.ndim else F.np.sum(A)
     if route == 'astype_roundtrip':
         return F.Fxp(A.get_val(), s, n, f)
+    if route in ('equal', 'equal_wider', 'set_val_fxp'):
+        # an existing object of the same / a wider format receives A's values
+        B = F.Fxp(other.get_val(), s, n + (2 if route == 'equal_wider' else 0), f)
+        if route == 'set_val_fxp':
+            B.set_val(A)
+        else:
+            B.equal(A)
+        return B
+    if route == 'transpose':
+        return F.np.transpose(A) if A.val.ndim else A.deepcopy()
+    if route == 'reshape':
+        return A.reshape((1, 2)).deepcopy() if A.val.ndim else A.deepcopy()
+    if route == 'flatten':
+        return A.flatten() if A.val.ndim else A.deepcopy()
+    if route == 'T_prop':
+        B = A.T                                # a view of the values (like indexing), but an object of its own
+        return B.deepcopy() if A.val.ndim else B
+    if route == 'copy_method':
+        return A.deepcopy().like(A)
     raise ValueError(route)
 
 
